@@ -14,6 +14,7 @@ LEVEL_NOTE = "trusted: the modelling of import, os.environ.get and str.lower; z3
 def bounded(tier, seed, rep):
     from bounded import routes
     routes.run(rep)
+    routes.entry_histories(rep)
 
 
 def replay(payload):
@@ -21,6 +22,7 @@ def replay(payload):
     from bounded import routes
     rep = Report("C20", "quick", 0, "proof")
     routes.run(rep)
+    routes.entry_histories(rep)
     for v in rep.violations:
         print("still fails:", v["signature"], v["detail"][:200])
     return 1 if rep.violations else 0
